@@ -440,7 +440,7 @@ class GridFlow(WidgetWrap[Pile], WidgetContainerMixin, WidgetContainerListConten
         if not pile_focus:
             return
         c = pile_focus.base_widget
-        if c.focus:
+        if c.focus is not None:
             col_focus_position = c.focus_position
         else:
             col_focus_position = 0
